@@ -407,6 +407,50 @@ def expected(pre, op, pool):
                     r["rule_genes"], r["genes"], r["table"], r["rule"] = ids, ids, tab, ANY
         return {"view": v}
 
+    if k == "merge":
+        # left gains copies of right's reactions whose (possibly prefixed) ids are new, with their metabolites and
+        # genes; right's reactions whose id exists are ignored (prefixed if a prefix is given); everything else of
+        # left is unchanged.  Objective: left / right / sum of both.
+        other = pool["other"]
+        which, prefix = op[1], op[2]
+        added = {}
+        for rid, rv in other["reactions"].items():
+            new_id = (prefix + rid) if (prefix is not None and rid in pre["reactions"]) else rid
+            if new_id in R:
+                continue
+            nr = copy.deepcopy(rv)
+            nr["id"] = new_id
+            nr["has_model"] = True
+            mets, genes_, table_ = nr["mets"], nr["rule_genes"], nr["table"]
+            nr["mets"], nr["genes"], nr["rule_genes"] = {}, [], []
+            R[new_id] = nr
+            _apply_stoich(v, new_id, [(m, c, other["metabolites"].get(m)) for m, c in mets.items()], True, pool)
+            _set_rule(v, new_id, genes_, table_, nr["rule"])
+            added[rid] = new_id
+        for gid in list(G):
+            if gid not in pre["genes"]:
+                G[gid]["name"] = ANY
+        left = dict(pre["objective"]["coefficients"]) if isinstance(pre["objective"]["coefficients"], dict) else ANY
+        right = other["objective"]["coefficients"]
+        # right's objective refers to its own variables by name; it is only well defined here when those
+        # reactions were added under their own id by this very merge
+        right_ok = isinstance(right, dict) and all(added.get(r) == r for r in right)
+        if which == "left":
+            pass
+        elif not right_ok or left is ANY:
+            v["objective"]["coefficients"] = ANY
+            v["objective"]["direction"] = ANY
+        elif which == "right":
+            v["objective"]["coefficients"] = dict(right)
+            v["objective"]["direction"] = ANY
+        else:
+            tot = dict(left)
+            for r, c in right.items():
+                tot[r] = _n(tot.get(r, 0) + c)
+            v["objective"]["coefficients"] = {r: c for r, c in tot.items() if c != 0}
+            v["objective"]["direction"] = ANY
+        return {"view": v}
+
     if k == "repair":
         return {"view": v}
 
